@@ -1,0 +1,53 @@
+// +build verif
+
+package common
+
+// Hooks for deterministic simulation. Only compiled with the verif build tag.
+
+// VerifWrapAll replaces every registered apply-side handler by wrap(name, h).
+// A simulator uses it to observe (and survive) a panic of a handler that runs
+// in the apply loop, where production has no recover.
+func (r *SMCmdRouter) VerifWrapAll(wrap func(name string, h InternalCommandFunc) InternalCommandFunc) {
+	for name, h := range r.smCmds {
+		r.smCmds[name] = wrap(name, h)
+	}
+}
+
+// VerifInternalNames lists the registered apply-side command names.
+func (r *SMCmdRouter) VerifInternalNames() []string {
+	var out []string
+	for name := range r.smCmds {
+		out = append(out, name)
+	}
+	return out
+}
+
+// VerifNames lists the registered command names by kind (read, write, merge
+// read, merge write).
+func (r *CmdRouter) VerifNames() (reads, writes, merges, mergeWrites []string) {
+	for n := range r.rcmds {
+		reads = append(reads, n)
+	}
+	for n := range r.wcmds {
+		writes = append(writes, n)
+	}
+	for n := range r.mergeCmds {
+		merges = append(merges, n)
+	}
+	for n := range r.mergeWriteCmds {
+		mergeWrites = append(mergeWrites, n)
+	}
+	return
+}
+
+// VerifWrapMerge replaces every registered merge handler (read and write) by
+// wrap(name, h). The server runs these in goroutines of their own, outside the
+// recover of the connection handler.
+func (r *CmdRouter) VerifWrapMerge(wrap func(name string, h MergeCommandFunc) MergeCommandFunc) {
+	for name, h := range r.mergeCmds {
+		r.mergeCmds[name] = wrap(name, h)
+	}
+	for name, h := range r.mergeWriteCmds {
+		r.mergeWriteCmds[name] = wrap(name, h)
+	}
+}
